@@ -15,7 +15,7 @@ EXPLANATION = (
     "(read_more): drain(0..offset) is followed by offset = 0 on the same path and the buffer grows only on the offset == 0 branch.  "
     "R4 (tick typestate, structural part): every construction of Item::TickStart is paired with a store in_tick = true and every "
     "Item::TickEnd with in_tick = false; all stores to `tick` take their value from checked_add; positions and inputs accumulate "
-    "through wrapping_add.  R5: every reachable panic site is discharged or reviewed.  Not decided: equality of item sequences "
+    "through wrapping_add.  R4b: the implicit tick test is `previous cid >= cid` and INPUT_NEW overwrites the stored input.  R5: every reachable panic site is discharged or reviewed.  Not decided: equality of item sequences "
     "across splittings as such, and the tick numbers against doc/teehistorian.md (value level)."
 )
 ASSUMPTIONS = ["the read callback returns Some(n > 0) or None (end of stream)", "reviewed table lines confirmed by reading the code"]
@@ -30,6 +30,7 @@ def run(ctx, rep):
     no_length_sensitive(ctx, rep)
     read_more(ctx.prog, rep)
     typestate(ctx.prog, rep)
+    implicit_tick_and_inputs(ctx.prog, rep)
 
 
 def _offset_stores(body, ir):
@@ -204,3 +205,64 @@ def typestate(prog, rep):
         if t["k"] == "assert" and t["msg"].startswith("Overflow:Add"):
             plain.append(t.get("ln"))
     rep.ob(rule, "no panicking + in Reader::read", not plain, "no checked `+` in read()" if not plain else "checked additions at lines %s" % plain, b.loc())
+
+
+def implicit_tick_and_inputs(prog, rep):
+    """R4b: (a) the implicit tick boundary of doc/teehistorian.md: a player record whose client id is not greater than the
+    previous one's starts a new tick -- the closure passed to prev_player_cid.map() computes `p >= cid` (normal forms
+    `cid <= p`, `!(p < cid)` accepted).  (b) An INPUT_NEW record replaces the stored input of that client id
+    (inputs.insert(cid, new)); later INPUT_DIFFs are applied to what was stored."""
+    from ..bits import BitEval, Unsupported
+    rule = "R4b-implicit-tick-and-input-store"
+    RD = "libtw2_teehistorian::raw::Reader::read"
+    b = prog.one(RD)
+    ir = IR(b)
+    maps = []
+    for bi, t in b.calls():
+        if (t.get("callee") or "") == "std::option::Option::map":
+            e = ir.call_expr(bi, t)
+            if "prev_player_cid" in show(strip_sites(e[2][0])):
+                cl = e[2][1]
+                while cl[0] in ("ref", "deref"):
+                    cl = cl[2] if cl[0] == "ref" else cl[1]
+                if cl[0] == "agg" and cl[1] == "closure":
+                    maps.append((bi, cl[2], t.get("ln")))
+    rep.floor(rule, len(maps), 1, "prev_player_cid.map(closure) in Reader::read")
+    be = BitEval(prog)
+    for bi, cid, ln in maps:
+        try:
+            e, rb = be.ret_expr(cid)
+        except Unsupported as ex:
+            rep.ob(rule, "implicit tick comparison", False, "cannot read the closure: %s" % ex, b.loc(ln))
+            continue
+        neg = False
+        while e[0] == "un" and e[1] == "Not":
+            e, neg = e[2], not neg
+        rel = None
+        if e[0] == "bin" and e[1] in ("Ge", "Gt", "Le", "Lt"):
+            op = e[1]
+            if neg:
+                op = {"Ge": "Lt", "Gt": "Le", "Le": "Gt", "Lt": "Ge"}[op]
+            a_is_p = e[2][0] == "arg" and e[2][1] == 1
+            b_is_p = e[3][0] == "arg" and e[3][1] == 1
+            if b_is_p and not a_is_p:
+                op = {"Ge": "Le", "Gt": "Lt", "Le": "Ge", "Lt": "Gt"}[op]
+            if a_is_p != b_is_p:
+                rel = op
+        rep.ob(rule, "implicit tick comparison", rel == "Ge",
+               "a new tick starts when previous cid >= this cid" if rel == "Ge" else
+               "the implicit tick test is `previous cid %s this cid`: %s" % (
+                   {"Gt": ">", "Le": "<=", "Lt": "<"}.get(rel, "?"),
+                   "a lone player's consecutive ticks merge into one" if rel == "Gt" else "tick boundaries differ from doc/teehistorian.md"),
+               b.loc(ln))
+    ins = []
+    for bi, t in b.calls():
+        if (t.get("callee") or "").endswith("::insert"):
+            e = ir.call_expr(bi, t)
+            if "self.inputs" in show(strip_sites(e[2][0])):
+                ins.append((bi, e, t.get("ln")))
+    ok = any("InputNew" in show(strip_sites(e[2][2])) and show(strip_sites(e[2][2])).endswith(".new") for bi, e, ln in ins)
+    rep.ob(rule, "INPUT_NEW overwrites the stored input", ok,
+           "inputs.insert(cid, record.new)" if ok else
+           "no unconditional inputs.insert(cid, new) for INPUT_NEW: a re-used client id keeps the previous player's input and later diffs accumulate on it",
+           b.loc())
